@@ -361,15 +361,15 @@ class EdgeLib(LibBase):
                 d = c.args["delay"]
                 val = gd_val(c)
                 drawn = z3.Or(d.tag == V.T_GEN, d.tag == V.T_FUNC)
-                return Clause("constant-is-returned-as-is", lambda c: z3.Implies(z3.Not(drawn), V.eq(val, d)), ("C08", "C11"))
+                return Clause("constant-is-returned-as-is", lambda c: z3.Implies(z3.Not(drawn), V.same_dyn(val, d)), ("C08", "C11"))
 
             def gd_post(c):
                 d = c.args["delay"]
                 val = gd_val(c)
                 drawn = z3.Or(d.tag == V.T_GEN, d.tag == V.T_FUNC)
                 return [
-                    Clause("constant-is-returned-as-is", lambda c: z3.Implies(z3.Not(drawn), V.eq(val, d)), ("C08", "C11")),
-                    Clause("result-is-the-drawn-value", lambda c: V.eq(V.dyn_of(c.res), val), ("C08", "C11")),
+                    Clause("constant-is-returned-as-is", lambda c: z3.Implies(z3.Not(drawn), V.same_dyn(val, d)), ("C08", "C11")),
+                    Clause("result-is-the-drawn-value", lambda c: V.same_dyn(c.res, val), ("C08", "C11")),
                     Clause("result-nonnegative-number", lambda c: z3.And(val.is_num(), val.num >= 0), ("C20", "C08")),
                     Structural("source-consulted-exactly-once",
                                lambda c: _consults_ok(c, d), ("C08", "C11"),
